@@ -617,11 +617,16 @@ func ruleC02Case(c *Ctx) {
 		}
 		nm := tb.namesOnPath(p)
 		ret := ext0(p.Ret[0].T)
-		if ret == nil {
-			continue
+		var a []*Term
+		isExpr := false
+		if ret != nil {
+			a, isExpr = callArgs(ret, "Expr")
 		}
-		a, isExpr := callArgs(ret, "Expr")
 		if !isExpr || len(a) < 3 {
+			// every success path answers with an evaluated branch (or the NULL literal's value)
+			if p.Ret[1].Nil && !(p.Ret[0].Nil && func() bool { ne, has := tb.namesOnPath(p)["noElse"]; return has && isTrueC(ne) }()) {
+				why = append(why, "a success path answers with "+avString(p.Ret[0])+" instead of evaluating a WHEN value or the ELSE expression")
+			}
 			continue
 		}
 		target := a[2].String()
@@ -675,5 +680,26 @@ func ruleC02Case(c *Ctx) {
 	if !sawThen || !sawElse || !sawNull {
 		why = append(why, fmt.Sprintf("paths found: then=%v else=%v null=%v", sawThen, sawElse, sawNull))
 	}
+	// independent of the unrolling bound: every return instruction answers with an evaluation's results or with an error
+	exprFn := c.P.Func(modPath, "Expr")
+	allInstrs(f, func(_ *ssa.BasicBlock, in ssa.Instruction) {
+		r, ok := in.(*ssa.Return)
+		if !ok || len(r.Results) != 2 {
+			return
+		}
+		if ex, isEx := r.Results[0].(*ssa.Extract); isEx && ex.Index == 0 {
+			if call, isCall := ex.Tuple.(*ssa.Call); isCall && call.Common().StaticCallee() == exprFn {
+				if e1, is1 := r.Results[1].(*ssa.Extract); is1 && e1.Tuple == ex.Tuple && e1.Index == 1 {
+					return
+				}
+			}
+		}
+		if cst, isC := r.Results[0].(*ssa.Const); isC && cst.IsNil() {
+			if c1, is1 := r.Results[1].(*ssa.Const); !is1 || !c1.IsNil() {
+				return
+			}
+		}
+		why = append(why, "the return at "+c.P.Pos(r.Pos())+" answers with "+NewTB().Of(r.Results[0]).String()+", which is neither an evaluated branch nor an error")
+	})
 	c.Check(len(why) == 0, "c02.case", key, c.P.Pos(f.Pos()), "true condition => its value; none => ELSE or NULL", strings.Join(uniq(why), "; "))
 }
